@@ -15,7 +15,10 @@ ORDER = 41
 
 FLOORS = ["try.sync.ontime", "try.sync.late", "try.sync.refused", "try.sync.boundary", "try.async.ontime",
           "try.async.late", "try.async.refused", "try.async.none", "try.async.boundary", "tick.skip.recent", "tick.skip.noobj",
-          "tick.skip.noleader", "tick.prolong", "tick.boundary", "isacq.true", "isacq.false", "release", "try.sync.error"]
+          "tick.skip.noleader", "tick.prolong", "tick.boundary", "isacq.true", "isacq.false", "release", "try.sync.error",
+          "try.sync.timeout", "try.sync.leader-changed", "try.async.leader-changed"]
+
+OPEN = (5, "timeout")       # FAIL_REASON.LEADER_CHANGED, SyncObjException('Timeout'): the command may still be committed
 
 
 def res_str(r):
@@ -37,11 +40,11 @@ def gen_script(rng, U):
             evs[-1] = ("apply", ("acq", l, c, None) if k < 0.6 else ("pro", c, None) if k < 0.8 else ("rel", l, c))
         elif r < 0.4:
             delay = rng.choice((0, 1, max(0, half - 1), half, half + 1, U, U + 1))
-            res, err = rng.choice(((True, 0), (True, 0), (True, 0), (False, 0), (None, 1)))
+            res, err = rng.choice(((True, 0), (True, 0), (True, 0), (False, 0), (None, 1), (None, 5), (None, "timeout"), (None, 4)))
             evs.append(("try_sync", l, delay, res, err))
         elif r < 0.6:
             delay = rng.choice((0, 1, max(0, half - 1), half, half + 1, U, U + 1))
-            res, err = rng.choice(((True, 0), (True, 0), (True, 0), (False, 0), (None, 3)))
+            res, err = rng.choice(((True, 0), (True, 0), (True, 0), (False, 0), (None, 3), (None, 5), (None, 2)))
             evs.append(("try_async", l, delay, res, err))
         elif r < 0.8:
             q = U // 4
@@ -69,6 +72,11 @@ def systematic():
                 scripts.append((U, [("try_async", 1, delay, res, err), ("isacq", 1)]))
             scripts.append((U, [("try_async", 1, delay, None, 3)]))
             scripts.append((U, [("try_sync", 1, delay, None, 1)]))
+            scripts.append((U, [("try_async", 1, delay, None, 5), ("isacq", 1)]))
+            scripts.append((U, [("try_sync", 1, delay, None, 5), ("isacq", 1)]))
+            scripts.append((U, [("try_sync", 1, delay, None, "timeout"), ("isacq", 1)]))
+            for e in (1, 2, 3, 4, 6):
+                scripts.append((U, [("try_async", 1, delay, None, e), ("try_sync", 1, delay, None, e)]))
         q = U // 4
         for d1 in sorted(set((0, max(0, q - 1), q, q + 1, q + 2))):
             scripts.append((U, [("tick", True, True, 40, 0, 0), ("tick", True, True, d1, 1, 2), ("tick", True, True, d1, 0, 0)]))
@@ -110,13 +118,14 @@ def run_script(bat, U, evs, me=1, cov=None):
                     def answer(cmd, cb, delay=delay, res=res, err=err):
                         if cmd[0] == "acq":
                             clock.now += delay
-                            cb(res, err)
-                        else:
+                            if err != "timeout":          # "timeout": nobody answers, the sync call gives up
+                                cb(res, err)
+                        elif cb is not None:
                             cb(None, 0)
                         return True
                     so.on_submit = answer
                     try:
-                        got.append(mgr.tryAcquire(lc.lock_name(l), sync=True))
+                        got.append(mgr.tryAcquire(lc.lock_name(l), sync=True, timeout=0.001 if err == "timeout" else None))
                     except Exception as e:
                         got.append("raised:" + type(e).__name__)
                     so.on_submit = None
@@ -131,7 +140,7 @@ def run_script(bat, U, evs, me=1, cov=None):
                 sub = so.submitted[n0:]
                 lines.append("ctry %d %d" % (l, att))
                 exp.append(lc.cmds_str(sub[:1]))
-                lines.append("cfin %d %d %d %s" % (l, att, acq, res_str(res)))
+                lines.append("cfin %d %d %d %s" % (l, att, acq, "O" if res is None and err in OPEN else res_str(res)))
                 if k == "try_sync":
                     if err != 0:
                         # the replicated call raises, tryAcquire does not catch: nothing further is submitted
@@ -144,6 +153,8 @@ def run_script(bat, U, evs, me=1, cov=None):
                 tag = "try.sync" if k == "try_sync" else "try.async"
                 if err != 0:
                     hit("try.sync.error" if k == "try_sync" else "try.async.none")
+                    if err in OPEN:
+                        hit(("try.sync." if k == "try_sync" else "try.async.") + ("timeout" if err == "timeout" else "leader-changed"))
                 elif res is False:
                     hit(tag + ".refused")
                 else:
@@ -241,6 +252,70 @@ def late_clause(bat, rng, n):
     return viols, n
 
 
+SIG_FAILED_KEPT = "batteries.ReplLockManager.tryAcquire:failed-acquire-kept"
+
+
+def failed_clause(bat, rng, n):
+    """Property text on the real wrapper + a real replica: a client that is told its acquisition failed does
+    not keep the lock -- also when the failure reported is one after which the command is committed anyway
+    (sync `Timeout`, `LEADER_CHANGED`).  The commands the wrapper submitted are committed in submission order,
+    the acquire `took` later than the attempt; the client's prolongation passes run; afterwards the client must
+    not consider the lock held and a competitor must get it."""
+    viols = []
+    for i in range(n):
+        U = rng.choice((4, 8, 10, 30))
+        took = rng.choice((0, 1, U // 2, U // 2 + 1, U - 1, U))
+        how = rng.choice(("sync-timeout", "sync-leader-changed", "async-leader-changed"))
+        clock = lc.VClock(rng.randrange(0, 100))
+        t_att = clock.now
+        with lc.Patched(bat, clock):
+            mgr, impl, so = lc.make_manager(bat, U, 1)
+            told = []
+            if how.startswith("sync"):
+                def hold(cmd, cb, how=how):
+                    so.queue.append((cmd, None))          # stays in the pipeline, will be committed
+                    if cmd[0] == "acq" and how == "sync-leader-changed":
+                        cb(None, 5)
+                    elif cmd[0] != "acq" and cb is not None:
+                        cb(None, 0)
+                    return True
+                so.on_submit = hold
+                try:
+                    told.append(mgr.tryAcquire(lc.lock_name(1), sync=True, timeout=0.001))
+                except Exception as e:
+                    told.append("raised %s(%s)" % (type(e).__name__, getattr(e, "errorCode", "")))
+                so.on_submit = None
+            else:
+                mgr.tryAcquire(lc.lock_name(1), callback=lambda r, e: told.append((r, e)))
+                cmd, cb = so.queue[0]
+                so.queue[0] = (cmd, None)
+                cb(None, 5)
+            clock.now += took
+            committed = []
+            while so.queue:
+                cmd, cb = so.queue.pop(0)
+                lc.apply_cmd(impl, cmd)
+                committed.append(lc.cmd_str(cmd))
+            held_after_commit = mgr.isAcquired(lc.lock_name(1))
+            for _ in range(5):                            # the client lives on: its prolongation passes run
+                clock.now += max(1, U // 4)
+                lc.tick_once(bat, mgr, clock)
+                while so.queue:
+                    cmd, cb = so.queue.pop(0)
+                    lc.apply_cmd(impl, cmd)
+                    committed.append(lc.cmd_str(cmd))
+            keeps = mgr.isAcquired(lc.lock_name(1))
+            other = impl.acquire(lc.lock_name(1), lc.client_name(2), clock.now, _doApply=True)
+            mgr.destroy()
+        if keeps or other is not True:
+            viols.append({"signature": SIG_FAILED_KEPT,
+                          "what": "U=%d, tryAcquire at %d (%s) told %s; the acquire was committed %d later; committed commands %s; at %d the "
+                                  "client's isAcquired is %r (%r right after the commit) and a competitor's acquire answers %r"
+                                  % (U, t_att, how, told, took, committed, clock.now, keeps, held_after_commit, other),
+                          "replay": {"kind": "failed", "U": U, "took": took, "how": how}})
+    return viols, n
+
+
 def run(ctx):
     t0 = time.time()
     bat = lc.load_batteries(ctx.repo)
@@ -266,6 +341,8 @@ def run(ctx):
                                   "model": out[a + j], "impl": all_exp[a + j],
                                   "note": "first differing reply of the script (request shown); earlier requests: %s" % all_lines[a:a + j][-6:]})
     viols, nl = late_clause(bat, ctx.rng("locks.client.late"), ctx.scale(200, 5000))
+    v2, n2 = failed_clause(bat, ctx.rng("locks.client.failed"), ctx.scale(60, 1000))
+    viols, nl = viols + v2, nl + n2
     res = {"cases": len(scripts) + nl, "distinct": len(seen), "coverage": dict(sorted(cov.items())),
            "samples": [{"U": scripts[-1][0], "requests": all_lines[spans[-1][0]:][:8], "replies": all_exp[spans[-1][0]:][:8]}],
            "disagreements": disagreements, "violations": viols[:3], "wall_s": round(time.time() - t0, 2)}
@@ -277,12 +354,18 @@ def run(ctx):
 
 def search(ctx, unproved):
     bat = lc.load_batteries(ctx.repo)
-    return late_clause(bat, ctx.rng("locks.client.search"), ctx.scale(2000, 20000))[0][:3]
+    return (late_clause(bat, ctx.rng("locks.client.search"), ctx.scale(2000, 20000))[0][:2]
+            + failed_clause(bat, ctx.rng("locks.client.search2"), ctx.scale(200, 2000))[0][:2])
 
 
 def replay(ctx, violation):
     bat = lc.load_batteries(ctx.repo)
     rp = violation.get("replay") or {}
+    if rp.get("kind") == "failed":
+        vs = failed_clause(bat, ctx.rng("locks.client.failed"), ctx.scale(60, 1000))[0]
+        vs += failed_clause(bat, ctx.rng("locks.client.search2"), ctx.scale(200, 2000))[0]
+        same = [v for v in vs if all(v["replay"].get(k) == rp.get(k) for k in ("U", "took", "how"))]
+        return {"violated": bool(same), "first": same[:1]}
     viols = late_clause(bat, ctx.rng("locks.client.late"), ctx.scale(200, 5000))[0]
     viols += late_clause(bat, ctx.rng("locks.client.search"), ctx.scale(2000, 20000))[0]
     same = [v for v in viols if v["signature"] == violation.get("signature")
